@@ -52,6 +52,24 @@ CLAIMED["C05"] = dict(
               "interface methods, obligations discharged by z3/cvc5",
     design="§3 C05")
 
+CLAIMED["C16"] = dict(
+    text="Proof, for all inputs, that (1) partition.ShardID/TraceShardID return hash(key) mod shardNum, defined exactly when "
+         "shardNum>=1, always below shardNum, reading and writing nothing else (purity + frame) — so the shard is a function of the key "
+         "bytes and the shard count only; (2) the round-robin selector's comparator is an antisymmetric, transitive order that agrees "
+         "with the (group, shard) order its binary search assumes, so the lookup table is sorted after every sortEntries; (3) on a strictly "
+         "sorted table Pick returns, for every (group, shard) present, the node nodes[(index+replica) mod len(nodes)] and an error "
+         "exactly for absent keys or when no node exists (every known shard is assigned); (4) lemma: for replicas < number of nodes the "
+         "copies (index+i) mod n are pairwise distinct. A strictly sorted, duplicate-free table is a function of the set of keys, which "
+         "is the order-independence argument.",
+    note=COMMON_NOTE + "Assumed: convert.Hash (xxhash) is a deterministic function; slices.SortFunc/sort.Search models (sortedness "
+         "only, permutation not expressed); mutexes not modelled. Not decided: the event handlers OnAddOrUpdate/OnDelete/OnInit/"
+         "AddNode/RemoveNode take generated protobuf messages that have no type information in this tree, so that they re-establish "
+         "the strictly-sorted invariant (and that AddNode keeps node names duplicate free) is a stated precondition of Pick, not a "
+         "proved invariant; queue/pub label selection and liaison routing are out of reach (proto).",
+    technique="contract-based deductive verification: VCs from the typed Go AST (govc) incl. closures passed to sort.Search/"
+              "slices.SortFunc, quantified table invariants, obligations discharged by z3/cvc5",
+    design="§3 C16")
+
 NOT_APPLICABLE = {
     "C15": "equivalence of two whole query pipelines over generated proto types: translation validation, no function contract states it (DESIGN.md §5)",
     "C17": "whole-cluster equivalence and gRPC/proto-typed transfer code with no type information in this tree (DESIGN.md §5)",
